@@ -2,6 +2,21 @@ import Jwt.Ll
 /-! The list invariant of `ll.h` over the generated operations, and what the `jwks.c` loops compute. -/
 namespace Jwt.Ll
 
+/-- the last element of `p :: l` -/
+def lastD : List Addr → Addr → Addr
+  | [], p => p
+  | x :: xs, _ => lastD xs x
+
+/-- the first element of `l ++ [e]` -/
+def firstD : List Addr → Addr → Addr
+  | [], e => e
+  | x :: _, _ => x
+
+@[simp] theorem lastD_nil (p : Addr) : lastD [] p = p := rfl
+@[simp] theorem lastD_cons (x : Addr) (xs : List Addr) (p : Addr) : lastD (x :: xs) p = lastD xs x := rfl
+@[simp] theorem firstD_nil (e : Addr) : firstD [] e = e := rfl
+@[simp] theorem firstD_cons (x : Addr) (xs : List Addr) (e : Addr) : firstD (x :: xs) e = x := rfl
+
 /-- `p → l₀ → l₁ → … → e` through `next`, and back through `prev` -/
 def Linked (h : Heap) : Addr → List Addr → Addr → Prop
   | p, [], e => h.next p = e ∧ h.prev e = p
@@ -27,28 +42,28 @@ theorem Linked.frame {h h' : Heap} {p : Addr} {l : List Addr} {e : Addr}
     exact ih (fun a ha => hn a (by simp at ha ⊢; exact Or.inr ha)) (fun a ha => hp a (by simp at ha ⊢; exact Or.inr ha)) h3
 
 theorem Linked.prev_end {h : Heap} {p : Addr} {l : List Addr} {e : Addr} (hl : Linked h p l e) :
-    h.prev e = l.getLastD p := by
+    h.prev e = lastD l p := by
   induction l generalizing p with
   | nil => exact hl.2
-  | cons x xs ih => simpa [List.getLastD_cons] using ih hl.2.2
+  | cons x xs ih => simpa [lastD_cons] using ih hl.2.2
 
 theorem Linked.next_last {h : Heap} {p : Addr} {l : List Addr} {e : Addr} (hl : Linked h p l e) :
-    h.next (l.getLastD p) = e := by
+    h.next (lastD l p) = e := by
   induction l generalizing p with
   | nil => exact hl.1
-  | cons x xs ih => simpa [List.getLastD_cons] using ih hl.2.2
+  | cons x xs ih => simpa [lastD_cons] using ih hl.2.2
 
 theorem Linked.next_first {h : Heap} {p : Addr} {l : List Addr} {e : Addr} (hl : Linked h p l e) :
-    h.next p = l.headD e := by
+    h.next p = firstD l e := by
   cases l with
   | nil => exact hl.1
   | cons x xs => exact hl.1
 
-theorem getLastD_mem (l : List Addr) (p : Addr) : l.getLastD p ∈ p :: l := by
+theorem getLastD_mem (l : List Addr) (p : Addr) : lastD l p ∈ p :: l := by
   induction l generalizing p with
   | nil => simp
   | cons x xs ih =>
-    rw [List.getLastD_cons]
+    rw [lastD_cons]
     have := ih x
     simp at this ⊢
     rcases this with h | h
@@ -58,25 +73,25 @@ theorem getLastD_mem (l : List Addr) (p : Addr) : l.getLastD p ∈ p :: l := by
 /-- appending a node at the end of a segment -/
 theorem Linked.snoc {h h' : Heap} {p : Addr} {l : List Addr} {e n : Addr}
     (hl : Linked h p l e) (nd : (p :: l).Nodup) (hnl : n ∉ p :: l) (hne : n ≠ e) (hel : e ∉ l)
-    (hN : ∀ a, h'.next a = if a = l.getLastD p then n else if a = n then e else h.next a)
-    (hP : ∀ a, h'.prev a = if a = e then n else if a = n then l.getLastD p else h.prev a) :
+    (hN : ∀ a, h'.next a = if a = lastD l p then n else if a = n then e else h.next a)
+    (hP : ∀ a, h'.prev a = if a = e then n else if a = n then lastD l p else h.prev a) :
     Linked h' p (l ++ [n]) e := by
   induction l generalizing p with
   | nil =>
     obtain ⟨h1, h2⟩ := hl
     have hnp : n ≠ p := by intro e'; exact hnl (by simp [e'])
-    simp only [List.getLastD_nil] at hN hP
+    simp only [lastD_nil] at hN hP
     refine ⟨by rw [hN]; simp, by rw [hP]; simp [hne], by rw [hN]; simp [hnp], by rw [hP]; simp⟩
   | cons x xs ih =>
     obtain ⟨h1, h2, h3⟩ := hl
-    simp only [List.getLastD_cons] at hN hP
+    simp only [lastD_cons] at hN hP
     have hlast := getLastD_mem xs x
     have hpx : p ∉ x :: xs := (List.nodup_cons.1 nd).1
     have hnp : n ≠ p := by intro e'; exact hnl (by simp [e'])
     have hnx : n ∉ x :: xs := fun hm => hnl (List.mem_cons_of_mem _ hm)
     refine ⟨?_, ?_, ?_⟩
     · rw [hN]
-      have : p ≠ xs.getLastD x := fun e' => hpx (e' ▸ hlast)
+      have : p ≠ lastD xs x := fun e' => hpx (e' ▸ hlast)
       simp [this, hnp.symm, h1]
     · rw [hP]
       have hxe : x ≠ e := fun e' => hel (by simp [e'])
@@ -87,18 +102,18 @@ theorem Linked.snoc {h h' : Heap} {p : Addr} {l : List Addr} {e n : Addr}
 /-- re-attaching the tail of a segment after its first node `x` was unlinked -/
 theorem Linked.skip {h h' : Heap} {p x : Addr} {l2 : List Addr} {e : Addr}
     (hl : Linked h x l2 e) (nd : (p :: x :: l2).Nodup) (hel : e ∉ x :: l2)
-    (hN : ∀ a, h'.next a = if a = x then 0 else if a = p then l2.headD e else h.next a)
-    (hP : ∀ a, h'.prev a = if a = x then 0 else if a = l2.headD e then p else h.prev a) :
+    (hN : ∀ a, h'.next a = if a = x then 0 else if a = p then firstD l2 e else h.next a)
+    (hP : ∀ a, h'.prev a = if a = x then 0 else if a = firstD l2 e then p else h.prev a) :
     Linked h' p l2 e := by
   have hpx : p ≠ x := by intro e'; simp [e'] at nd
   have hex : e ≠ x := fun e' => hel (by simp [e'])
   cases l2 with
   | nil =>
-    simp only [List.headD_nil] at hN hP
+    simp only [firstD_nil] at hN hP
     exact ⟨by rw [hN]; simp [hpx], by rw [hP]; simp [hex]⟩
   | cons y ys =>
     obtain ⟨h1, h2, h3⟩ := hl
-    simp only [List.headD_cons] at hN hP
+    simp only [firstD_cons] at hN hP
     have nd' := nd
     simp only [List.nodup_cons, List.mem_cons, not_or] at nd'
     obtain ⟨⟨_, hpy, hpys⟩, ⟨hxy, hxys⟩, hyys, ndys⟩ := nd'
@@ -138,28 +153,28 @@ theorem Linked.skip {h h' : Heap} {p x : Addr} {l2 : List Addr} {e : Addr}
 /-- unlinking the node `x` in the middle of a segment -/
 theorem Linked.del {h h' : Heap} {p : Addr} {l1 : List Addr} {x : Addr} {l2 : List Addr} {e : Addr}
     (hl : Linked h p (l1 ++ x :: l2) e) (nd : (p :: (l1 ++ x :: l2)).Nodup) (hel : e ∉ l1 ++ x :: l2)
-    (hN : ∀ a, h'.next a = if a = x then 0 else if a = l1.getLastD p then l2.headD e else h.next a)
-    (hP : ∀ a, h'.prev a = if a = x then 0 else if a = l2.headD e then l1.getLastD p else h.prev a) :
+    (hN : ∀ a, h'.next a = if a = x then 0 else if a = lastD l1 p then firstD l2 e else h.next a)
+    (hP : ∀ a, h'.prev a = if a = x then 0 else if a = firstD l2 e then lastD l1 p else h.prev a) :
     Linked h' p (l1 ++ l2) e := by
   induction l1 generalizing p with
   | nil =>
-    simp only [List.nil_append, List.getLastD_nil] at hl nd hel hN hP ⊢
+    simp only [List.nil_append, lastD_nil] at hl nd hel hN hP ⊢
     obtain ⟨_, _, h3⟩ := hl
     exact Linked.skip h3 nd hel hN hP
   | cons z zs ih =>
-    simp only [List.cons_append, List.getLastD_cons] at hl nd hel hN hP ⊢
+    simp only [List.cons_append, lastD_cons] at hl nd hel hN hP ⊢
     obtain ⟨h1, h2, h3⟩ := hl
     have nd' := List.nodup_cons.1 nd
     have hpl : p ∉ z :: (zs ++ x :: l2) := nd'.1
-    have hlast : zs.getLastD z ∈ z :: zs := getLastD_mem zs z
-    have hhead : l2.headD e = e ∨ l2.headD e ∈ l2 := by
+    have hlast : lastD zs z ∈ z :: zs := getLastD_mem zs z
+    have hhead : firstD l2 e = e ∨ firstD l2 e ∈ l2 := by
       cases l2 with
       | nil => exact Or.inl rfl
       | cons y ys => exact Or.inr (by simp)
     refine ⟨?_, ?_, ih h3 nd'.2 (fun hm => hel (List.mem_cons_of_mem _ hm)) hN hP⟩
     · rw [hN]
       have hpx : p ≠ x := fun e' => hpl (by simp [e'])
-      have hpl' : p ≠ zs.getLastD z := by
+      have hpl' : p ≠ lastD zs z := by
         intro e'
         apply hpl
         rw [e']
@@ -172,7 +187,7 @@ theorem Linked.del {h h' : Heap} {p : Addr} {l1 : List Addr} {x : Addr} {l2 : Li
       have nd2 := nd'.2
       simp only [List.nodup_cons, List.mem_append, List.mem_cons, not_or] at nd2
       have hzx : z ≠ x := nd2.1.2.1
-      have hzh : z ≠ l2.headD e := by
+      have hzh : z ≠ firstD l2 e := by
         intro e'
         rcases hhead with hh | hh
         · exact hel (by rw [← hh, ← e']; simp)
@@ -181,10 +196,22 @@ theorem Linked.del {h h' : Heap} {p : Addr} {l1 : List Addr} {x : Addr} {l2 : Li
 
 /-! ## the generated operations on well-formed lists -/
 
+theorem init_eval (h : Heap) (head : Addr) (hv : h.valid head = true) :
+    INIT_LIST_HEAD h head = some { valid := h.valid, next := fun x => if x = head then head else h.next x,
+                                   prev := fun x => if x = head then head else h.prev x } := by
+  simp [INIT_LIST_HEAD, Heap.setNext, Heap.setPrev, hv, bind, Option.bind]
+
 theorem init_ok (h : Heap) (head : Addr) (hv : h.valid head = true) (h0 : h.valid 0 = false) :
     ∃ h', INIT_LIST_HEAD h head = some h' ∧ IsList h' head [] ∧ h'.valid = h.valid := by
-  refine ⟨_, by simp [INIT_LIST_HEAD, Heap.setNext, Heap.setPrev, hv, bind, Option.bind], ?_, rfl⟩
+  refine ⟨_, init_eval h head hv, ?_, rfl⟩
   exact ⟨by simp, by simp [hv], h0, by simp [Linked]⟩
+
+theorem add_tail_eval (h : Heap) (head n last : Addr) (hvh : h.valid head = true) (hv : h.valid n = true)
+    (hpe : h.prev head = last) (hvl : h.valid last = true) :
+    list_add_tail h n head = some (Heap.mk h.valid
+      (fun x => if x = last then n else if x = n then head else h.next x)
+      (fun x => if x = n then last else if x = head then n else h.prev x)) := by
+  simp [list_add_tail, list_insert, Heap.getPrev, Heap.setNext, Heap.setPrev, hvh, hv, hpe, hvl, bind, Option.bind]
 
 /-- **`list_add_tail` appends.** On a well-formed list, with a live node `n` that is not in it, every
 store hits a live node and the result is the well-formed list `l ++ [n]`. -/
@@ -193,32 +220,47 @@ theorem add_tail_ok (h : Heap) (head : Addr) (l : List Addr) (n : Addr) (hl : Is
     ∃ h', list_add_tail h n head = some h' ∧ IsList h' head (l ++ [n]) ∧ h'.valid = h.valid := by
   have hvh : h.valid head = true := hl.valid head (by simp)
   have hlast_mem := getLastD_mem l head
-  have hvl : h.valid (l.getLastD head) = true := hl.valid _ hlast_mem
+  have hvl : h.valid (lastD l head) = true := hl.valid _ hlast_mem
   have hpe := hl.linked.prev_end
-  refine ⟨_, by simp [list_add_tail, list_insert, Heap.getPrev, Heap.setNext, Heap.setPrev, hvh, hv, hpe, hvl, bind, Option.bind], ?_, rfl⟩
+  refine ⟨_, add_tail_eval h head n _ hvh hv hpe hvl, ?_, rfl⟩
   have hnh : n ≠ head := fun e => hn (by simp [e])
+  have hnl : n ∉ l := fun hm => hn (List.mem_cons_of_mem _ hm)
+  have ndl := List.nodup_cons.1 hl.nodup
   refine ⟨?_, ?_, hl.null, ?_⟩
-  · have := hl.nodup
-    simp only [List.nodup_cons, List.mem_cons, not_or, List.nodup_append, List.mem_append, List.mem_singleton] at this hn ⊢
-    refine ⟨⟨this.1, Ne.symm hn.1⟩, this.2, by simp, ?_⟩
-    intro a ha b hb
-    subst hb
-    intro e; subst e; exact hn.2 ha
+  · rw [List.nodup_cons]
+    refine ⟨?_, ?_⟩
+    · intro hm
+      rcases List.mem_append.1 hm with hm | hm
+      · exact ndl.1 hm
+      · exact hnh (List.mem_singleton.1 hm).symm
+    · rw [List.nodup_append]
+      refine ⟨ndl.2, by simp, ?_⟩
+      intro a ha b hb
+      rw [List.mem_singleton.1 hb]
+      intro e; exact hnl (e ▸ ha)
   · intro a ha
-    simp only [List.mem_cons, List.mem_append, List.mem_singleton] at ha
-    rcases ha with rfl | ha | rfl
+    rcases List.mem_cons.1 ha with rfl | ha
     · exact hvh
-    · exact hl.valid a (List.mem_cons_of_mem _ ha)
-    · exact hv
-  · apply Linked.snoc hl.linked hl.nodup hn hnh (List.nodup_cons.1 hl.nodup).1
-    · intro a; simp only; split <;> rfl
+    · rcases List.mem_append.1 ha with ha | ha
+      · exact hl.valid a (List.mem_cons_of_mem _ ha)
+      · rw [List.mem_singleton.1 ha]; exact hv
+  · apply Linked.snoc hl.linked hl.nodup hn hnh ndl.1
+    · intro a; rfl
     · intro a
-      simp only
+      show (if a = n then lastD l head else if a = head then n else h.prev a) =
+        (if a = head then n else if a = n then lastD l head else h.prev a)
       by_cases h1 : a = n
-      · subst h1; simp [hnh]
+      · rw [h1]; simp [hnh]
       · by_cases h2 : a = head
-        · subst h2; simp [h1]
+        · rw [h2]; simp [Ne.symm hnh]
         · simp [h1, h2]
+
+theorem del_eval (h : Heap) (x pv nx : Addr) (hvx : h.valid x = true) (hprev : h.prev x = pv) (hnext : h.next x = nx)
+    (hvp : h.valid pv = true) (hvn : h.valid nx = true) :
+    list_del h x = some (Heap.mk h.valid
+      (fun a => if a = x then 0 else if a = pv then nx else h.next a)
+      (fun a => if a = x then 0 else if a = nx then pv else h.prev a)) := by
+  simp [list_del, list_join_nodes, Heap.getPrev, Heap.getNext, Heap.setNext, Heap.setPrev, hvx, hprev, hnext, hvp, hvn, bind, Option.bind]
 
 /-- **`list_del` unlinks exactly the entry.** -/
 theorem del_ok (h : Heap) (head : Addr) (l1 : List Addr) (x : Addr) (l2 : List Addr)
@@ -228,49 +270,56 @@ theorem del_ok (h : Heap) (head : Addr) (l1 : List Addr) (x : Addr) (l2 : List A
   have nd := hl.nodup
   have hel : head ∉ l1 ++ x :: l2 := (List.nodup_cons.1 nd).1
   -- the neighbours
-  have hprev : h.prev x = l1.getLastD head := by
-    have : ∀ (p : Addr) (l1 : List Addr), Linked h p (l1 ++ x :: l2) head → h.prev x = l1.getLastD p := by
+  have hprev : h.prev x = lastD l1 head := by
+    have : ∀ (p : Addr) (l1 : List Addr), Linked h p (l1 ++ x :: l2) head → h.prev x = lastD l1 p := by
       intro p l1
       induction l1 generalizing p with
       | nil => intro hh; exact hh.2.1
-      | cons z zs ih => intro hh; simpa [List.getLastD_cons] using ih z hh.2.2
+      | cons z zs ih => intro hh; simpa using ih z hh.2.2
     exact this head l1 hl.linked
-  have hnext : h.next x = l2.headD head := by
-    have : ∀ (p : Addr) (l1 : List Addr), Linked h p (l1 ++ x :: l2) head → h.next x = l2.headD head := by
+  have hnext : h.next x = firstD l2 head := by
+    have : ∀ (p : Addr) (l1 : List Addr), Linked h p (l1 ++ x :: l2) head → h.next x = firstD l2 head := by
       intro p l1
       induction l1 generalizing p with
       | nil => intro hh; exact hh.2.2.next_first
       | cons z zs ih => intro hh; exact ih z hh.2.2
     exact this head l1 hl.linked
-  have hvp : h.valid (l1.getLastD head) = true := by
+  have hvp : h.valid (lastD l1 head) = true := by
     apply hl.valid
     have := getLastD_mem l1 head
-    simp only [List.mem_cons, List.mem_append] at this ⊢
-    rcases this with hh | hh
-    · exact Or.inl hh
-    · exact Or.inr (Or.inl hh)
-  have hvn : h.valid (l2.headD head) = true := by
+    rcases List.mem_cons.1 this with hh | hh
+    · rw [hh]; simp
+    · exact List.mem_cons_of_mem _ (List.mem_append_left _ hh)
+  have hvn : h.valid (firstD l2 head) = true := by
     apply hl.valid
     cases l2 with
     | nil => simp
     | cons y ys => simp
-  refine ⟨_, by simp [list_del, list_join_nodes, Heap.getPrev, Heap.getNext, Heap.setNext, Heap.setPrev, hvx, hprev, hnext, hvp, hvn, bind, Option.bind],
-    ?_, rfl, by simp, by simp⟩
+  refine ⟨_, del_eval h x _ _ hvx hprev hnext hvp hvn, ?_, rfl, by simp, by simp⟩
+  have ndl := List.nodup_cons.1 nd
+  have nda := List.nodup_append.1 ndl.2
   refine ⟨?_, ?_, hl.null, ?_⟩
-  · simp only [List.nodup_cons, List.mem_append, List.mem_cons, not_or, List.nodup_append] at nd ⊢
-    refine ⟨⟨nd.1.1, nd.1.2.2⟩, nd.2.1, nd.2.2.1.2, ?_⟩
-    intro a ha b hb
-    exact nd.2.2.2 a ha b (Or.inr hb)
+  · rw [List.nodup_cons]
+    refine ⟨?_, ?_⟩
+    · intro hm
+      apply hel
+      rcases List.mem_append.1 hm with hm | hm
+      · exact List.mem_append_left _ hm
+      · exact List.mem_append_right _ (List.mem_cons_of_mem _ hm)
+    · rw [List.nodup_append]
+      refine ⟨nda.1, (List.nodup_cons.1 nda.2.1).2, ?_⟩
+      intro a ha b hb
+      exact nda.2.2 a ha b (List.mem_cons_of_mem _ hb)
   · intro a ha
     apply hl.valid
-    simp only [List.mem_cons, List.mem_append] at ha ⊢
-    rcases ha with hh | hh | hh
-    · exact Or.inl hh
-    · exact Or.inr (Or.inl hh)
-    · exact Or.inr (Or.inr (Or.inr hh))
+    rcases List.mem_cons.1 ha with hh | hh
+    · rw [hh]; simp
+    · rcases List.mem_append.1 hh with hh | hh
+      · exact List.mem_cons_of_mem _ (List.mem_append_left _ hh)
+      · exact List.mem_cons_of_mem _ (List.mem_append_right _ (List.mem_cons_of_mem _ hh))
   · apply Linked.del hl.linked nd hel
-    · intro a; simp only; split <;> rfl
-    · intro a; simp only; split <;> rfl
+    · intro a; rfl
+    · intro a; rfl
 
 /-- **A second `list_del` of the same entry dereferences NULL** (the entry's pointers were cleared):
 the model refuses it, `jwks.c` never does it because it deletes only nodes it found in the list. -/
@@ -371,5 +420,302 @@ theorem itemFind_ok (h : Heap) (view : Addr → ItemView) (head : Addr) (l : Lis
   simp only [itemFind, Heap.getNext, hvh, if_true, bind, Option.bind]
   exact findFrom_ok h view head kid head l fuel hl.linked (fun a ha => hl.valid a (List.mem_cons_of_mem _ ha))
     (List.nodup_cons.1 hl.nodup).1 hf
+
+end Jwt.Ll
+
+namespace Jwt.Ll
+
+/-! ## neighbours, frames for `free` and `alloc` -/
+
+theorem Linked.next_mid {h : Heap} {p : Addr} {l1 : List Addr} {x : Addr} {l2 : List Addr} {e : Addr}
+    (hl : Linked h p (l1 ++ x :: l2) e) : h.next x = firstD l2 e := by
+  induction l1 generalizing p with
+  | nil => exact hl.2.2.next_first
+  | cons z zs ih => exact ih hl.2.2
+
+theorem free_eval (h : Heap) (x : Addr) (hv : h.valid x = true) :
+    h.free x = some (Heap.mk (fun a => if a = x then false else h.valid a) h.next h.prev) := by
+  simp [Heap.free, hv]
+
+theorem alloc_eval (h : Heap) (a : Addr) (ha0 : a ≠ 0) (hv : h.valid a = false) :
+    h.alloc a = some (Heap.mk (fun x => if x = a then true else h.valid x) (fun x => if x = a then 0 else h.next x)
+      (fun x => if x = a then 0 else h.prev x)) := by
+  simp [Heap.alloc, ha0, hv]
+
+theorem IsList.free_other {h : Heap} {head : Addr} {l : List Addr} (hl : IsList h head l) (x : Addr)
+    (hx : x ∉ head :: l) (hv : h.valid x = true) :
+    ∃ h', h.free x = some h' ∧ IsList h' head l ∧ h'.valid x = false ∧ (∀ a, a ≠ x → h'.valid a = h.valid a) ∧
+      h'.next = h.next ∧ h'.prev = h.prev := by
+  refine ⟨_, free_eval h x hv, ?_, by simp, fun a ha => by simp [ha], rfl, rfl⟩
+  refine ⟨hl.nodup, ?_, ?_, Linked.frame (h := h) (fun _ _ => rfl) (fun _ _ => rfl) hl.linked⟩
+  · intro a ha
+    have : a ≠ x := fun e => hx (e ▸ ha)
+    simp [this, hl.valid a ha]
+  · show (if (0 : Addr) = x then false else h.valid 0) = false
+    split
+    · rfl
+    · exact hl.null
+
+theorem IsList.alloc_other {h : Heap} {head : Addr} {l : List Addr} (hl : IsList h head l) (a : Addr)
+    (ha0 : a ≠ 0) (hv : h.valid a = false) :
+    ∃ h', h.alloc a = some h' ∧ IsList h' head l ∧ h'.valid a = true ∧ (∀ b, b ≠ a → h'.valid b = h.valid b) := by
+  have hnot : a ∉ head :: l := fun hm => by have := hl.valid a hm; rw [hv] at this; cases this
+  refine ⟨_, alloc_eval h a ha0 hv, ?_, by simp, fun b hb => by simp [hb]⟩
+  refine ⟨hl.nodup, ?_, ?_, ?_⟩
+  · intro b hb
+    have : b ≠ a := fun e => hnot (e ▸ hb)
+    simp [this, hl.valid b hb]
+  · show (if (0 : Addr) = a then true else h.valid 0) = false
+    rw [if_neg (Ne.symm ha0)]; exact hl.null
+  · apply Linked.frame _ _ hl.linked
+    · intro b hb
+      have : b ≠ a := fun e => hnot (e ▸ hb)
+      simp [this]
+    · intro b hb
+      have : b ≠ a := by
+        intro e; apply hnot; rw [← e]
+        rcases List.mem_append.1 hb with hb | hb
+        · exact List.mem_cons_of_mem _ hb
+        · rw [List.mem_singleton.1 hb]; simp
+      simp [this]
+
+/-- **`jwks_item_add`.** A freshly allocated item is appended at the end. -/
+theorem itemAdd_ok (h : Heap) (head : Addr) (l : List Addr) (a : Addr) (hl : IsList h head l) (ha0 : a ≠ 0)
+    (hv : h.valid a = false) :
+    ∃ h', itemAdd h head a = some h' ∧ IsList h' head (l ++ [a]) ∧ (∀ b, b ≠ a → h'.valid b = h.valid b) := by
+  obtain ⟨h1, e1, l1, v1, o1⟩ := hl.alloc_other a ha0 hv
+  have hnot : a ∉ head :: l := fun hm => by have := hl.valid a hm; rw [hv] at this; cases this
+  obtain ⟨h2, e2, l2, v2⟩ := add_tail_ok h1 head l a l1 v1 hnot
+  refine ⟨h2, by simp [itemAdd, e1, e2, bind, Option.bind], l2, fun b hb => by rw [v2]; exact o1 b hb⟩
+
+/-- `__item_free` of a member: unlinked, then its memory released -/
+theorem itemRelease_ok (h : Heap) (head : Addr) (l1 : List Addr) (x : Addr) (l2 : List Addr)
+    (hl : IsList h head (l1 ++ x :: l2)) :
+    ∃ h', itemRelease h x = some h' ∧ IsList h' head (l1 ++ l2) ∧ h'.valid x = false ∧
+      (∀ a, a ≠ x → h'.valid a = h.valid a) ∧ (∀ a, a ≠ x → a ∈ head :: (l1 ++ l2) → h'.next a = (if a = lastD l1 head then firstD l2 head else h.next a)) := by
+  obtain ⟨h1, e1, il1, v1, _, _⟩ := del_ok h head l1 x l2 hl
+  have hx : x ∉ head :: (l1 ++ l2) := by
+    have nd := hl.nodup
+    have ndl := List.nodup_cons.1 nd
+    have nda := List.nodup_append.1 ndl.2
+    intro hm
+    rcases List.mem_cons.1 hm with hm | hm
+    · exact ndl.1 (by rw [← hm]; simp)
+    · rcases List.mem_append.1 hm with hm | hm
+      · exact nda.2.2 x hm x (by simp) rfl
+      · exact (List.nodup_cons.1 nda.2.1).1 hm
+  have hvx : h1.valid x = true := by rw [v1]; exact hl.valid x (by simp)
+  obtain ⟨h2, e2, il2, vx, vo, n2, _⟩ := il1.free_other x hx hvx
+  refine ⟨h2, by simp [itemRelease, e1, e2, bind, Option.bind], il2, vx, fun a ha => by rw [vo a ha, v1], ?_⟩
+  intro a ha _
+  rw [n2]
+  -- h1 is the explicit heap of del_eval
+  have hvx' : h.valid x = true := hl.valid x (by simp)
+  have hprev : h.prev x = lastD l1 head := by
+    have : ∀ (p : Addr) (l1 : List Addr), Linked h p (l1 ++ x :: l2) head → h.prev x = lastD l1 p := by
+      intro p l1
+      induction l1 generalizing p with
+      | nil => intro hh; exact hh.2.1
+      | cons z zs ih => intro hh; simpa using ih z hh.2.2
+    exact this head l1 hl.linked
+  have hnext := hl.linked.next_mid
+  have hvp : h.valid (lastD l1 head) = true := by
+    apply hl.valid
+    rcases List.mem_cons.1 (getLastD_mem l1 head) with hh | hh
+    · rw [hh]; simp
+    · exact List.mem_cons_of_mem _ (List.mem_append_left _ hh)
+  have hvn : h.valid (firstD l2 head) = true := by
+    apply hl.valid
+    cases l2 with
+    | nil => simp
+    | cons y ys => simp
+  have := del_eval h x _ _ hvx' hprev hnext hvp hvn
+  rw [this] at e1
+  cases e1
+  simp [ha]
+
+/-- **`jwks_item_free(set, idx)`** removes exactly the `idx`-th member (and reports 1), or nothing (0). -/
+theorem itemFree_ok (h : Heap) (head : Addr) (l : List Addr) (fuel idx : Nat) (hl : IsList h head l)
+    (hf : l.length < fuel) :
+    ∃ h', itemFree h head fuel idx = some (h', if idx < l.length then 1 else 0) ∧ IsList h' head (l.eraseIdx idx) ∧
+      (∀ a, a ∈ l[idx]? → h'.valid a = false) ∧ (∀ a, a ∉ l[idx]? → h'.valid a = h.valid a) := by
+  have hg := itemGet_ok h head l fuel idx hl hf
+  by_cases hi : idx < l.length
+  · have hsplit : l = l.take idx ++ l[idx] :: l.drop (idx + 1) := by
+      rw [List.getElem_cons_drop hi, List.take_append_drop]
+    have hl' : IsList h head (l.take idx ++ l[idx] :: l.drop (idx + 1)) := hsplit ▸ hl
+    obtain ⟨h', e, il, vx, vo, _⟩ := itemRelease_ok h head _ _ _ hl'
+    refine ⟨h', ?_, ?_, ?_, ?_⟩
+    · simp [itemFree, hg, List.getElem?_eq_getElem hi, e, hi, bind, Option.bind]
+    · rw [List.eraseIdx_eq_take_drop_succ]; exact il
+    · intro a ha
+      rw [List.getElem?_eq_getElem hi] at ha
+      cases ha; exact vx
+    · intro a ha
+      rw [List.getElem?_eq_getElem hi] at ha
+      exact vo a (fun e => ha (by rw [e]; rfl))
+  · have hnone : l[idx]? = none := List.getElem?_eq_none (by omega)
+    refine ⟨h, by simp [itemFree, hg, hnone, hi, bind, Option.bind], ?_, by simp [hnone], by simp⟩
+    rw [List.eraseIdx_of_length_le (by omega)]
+    exact hl
+
+end Jwt.Ll
+
+namespace Jwt.Ll
+
+theorem firstD_mem (l : List Addr) (e : Addr) : firstD l e ∈ e :: l := by
+  cases l with
+  | nil => simp
+  | cons x xs => simp
+
+theorem freeBadFrom_ok (view : Addr → ItemView) (head : Addr) (rest : List Addr) :
+    ∀ (done : List Addr) (h : Heap) (n : Addr) (c fuel : Nat),
+      IsList h head (done ++ rest) → (∀ x xs, rest = x :: xs → n = firstD xs head) → rest.length < fuel →
+      ∃ h', freeBadFrom view head fuel h (firstD rest head) n c =
+          some (h', c + (rest.filter (fun a => (view a).error)).length) ∧
+        IsList h' head (done ++ rest.filter (fun a => !(view a).error)) ∧
+        (∀ a, a ∈ rest → (view a).error = true → h'.valid a = false) ∧
+        (∀ a, ¬(a ∈ rest ∧ (view a).error = true) → h'.valid a = h.valid a) := by
+  induction rest with
+  | nil =>
+    intro done h n c fuel hl _ hf
+    cases fuel with
+    | zero => simp at hf
+    | succ f =>
+      refine ⟨h, by simp [freeBadFrom], by simpa using hl, by simp, by simp⟩
+  | cons x xs ih =>
+    intro done h n c fuel hl hn hf
+    cases fuel with
+    | zero => simp at hf
+    | succ f =>
+      have hn' : n = firstD xs head := hn x xs rfl
+      have hxh : x ≠ head := by
+        intro e
+        have := (List.nodup_cons.1 hl.nodup).1
+        apply this; rw [← e]; simp
+      have hvx : h.valid x = true := hl.valid x (by simp)
+      have hnmem : n ∈ head :: (done ++ x :: xs) := by
+        rw [hn']
+        rcases List.mem_cons.1 (firstD_mem xs head) with hh | hh
+        · rw [hh]; simp
+        · exact List.mem_cons_of_mem _ (List.mem_append_right _ (List.mem_cons_of_mem _ hh))
+      by_cases hex : (view x).error = true
+      · obtain ⟨h2, e2, il2, vx, vo, _⟩ := itemRelease_ok h head done x xs hl
+        have hnx : n ≠ x := by
+          intro e
+          have nd := hl.nodup
+          have ndl := List.nodup_cons.1 nd
+          have nda := List.nodup_append.1 ndl.2
+          have hx' := List.nodup_cons.1 nda.2.1
+          rw [hn'] at e
+          rcases List.mem_cons.1 (firstD_mem xs head) with hh | hh
+          · apply ndl.1; rw [← hh, e]; simp
+          · exact hx'.1 (e ▸ hh)
+        have hvn : h2.valid n = true := by rw [vo n hnx]; exact hl.valid n hnmem
+        have hcond : ∀ y ys, xs = y :: ys → h2.next n = firstD ys head := by
+          intro y ys hxs
+          subst hxs
+          simp only [firstD_cons] at hn'
+          subst hn'
+          exact il2.linked.next_mid
+        obtain ⟨h3, e3, il3, v3a, v3b⟩ := ih done h2 (h2.next n) (c + 1) f il2 hcond (by simp at hf; omega)
+        refine ⟨h3, ?_, ?_, ?_, ?_⟩
+        · simp only [firstD_cons, freeBadFrom, hxh, if_false, Heap.getNext, hvx, if_true, hex, e2, hvn, bind, Option.bind]
+          rw [← hn'] at e3
+          rw [e3]
+          simp [List.filter_cons, hex]; omega
+        · simpa [List.filter_cons, hex] using il3
+        · intro a ha hae
+          rcases List.mem_cons.1 ha with rfl | ha
+          · by_cases hax : a ∈ xs ∧ (view a).error = true
+            · exact v3a a hax.1 hax.2
+            · rw [v3b a hax]; exact vx
+          · exact v3a a ha hae
+        · intro a ha
+          have h1 : ¬(a ∈ xs ∧ (view a).error = true) := fun hh => ha ⟨List.mem_cons_of_mem _ hh.1, hh.2⟩
+          have h2' : a ≠ x := fun e => ha ⟨by rw [e]; simp, e ▸ hex⟩
+          rw [v3b a h1, vo a h2']
+      · have hvn : h.valid n = true := hl.valid n hnmem
+        have hl' : IsList h head ((done ++ [x]) ++ xs) := by simpa [List.append_assoc] using hl
+        have hcond : ∀ y ys, xs = y :: ys → h.next n = firstD ys head := by
+          intro y ys hxs
+          subst hxs
+          simp only [firstD_cons] at hn'
+          subst hn'
+          exact hl'.linked.next_mid
+        obtain ⟨h3, e3, il3, v3a, v3b⟩ := ih (done ++ [x]) h (h.next n) c f hl' hcond (by simp at hf; omega)
+        refine ⟨h3, ?_, ?_, ?_, ?_⟩
+        · have hex' : (view x).error = false := by simpa using hex
+          simp only [firstD_cons, freeBadFrom, hxh, if_false, Heap.getNext, hvx, if_true, hex', hvn, bind, Option.bind,
+            Bool.false_eq_true]
+          rw [← hn'] at e3
+          rw [e3]
+          simp [List.filter_cons, hex']
+        · simpa [List.filter_cons, hex, List.append_assoc] using il3
+        · intro a ha hae
+          rcases List.mem_cons.1 ha with rfl | ha
+          · exact absurd hae hex
+          · exact v3a a ha hae
+        · intro a ha
+          exact v3b a (fun hh => ha ⟨List.mem_cons_of_mem _ hh.1, hh.2⟩)
+
+/-- **`jwks_item_free_bad`** removes exactly the items that carry an error, keeps the others in order,
+reports how many it removed, and never touches freed memory (the `_safe` iteration reads the next
+pointer before the current item is released). -/
+theorem freeBad_ok (h : Heap) (view : Addr → ItemView) (head : Addr) (l : List Addr) (fuel : Nat)
+    (hl : IsList h head l) (hf : l.length < fuel) :
+    ∃ h', freeBad h view head fuel = some (h', (l.filter (fun a => (view a).error)).length) ∧
+      IsList h' head (l.filter (fun a => !(view a).error)) ∧
+      (∀ a, a ∈ l → (view a).error = true → h'.valid a = false) ∧
+      (∀ a, ¬(a ∈ l ∧ (view a).error = true) → h'.valid a = h.valid a) := by
+  have hvh := hl.valid head (by simp)
+  have hpos := hl.linked.next_first
+  have hvp : h.valid (firstD l head) = true := hl.valid _ (firstD_mem l head)
+  have hcond : ∀ x xs, l = x :: xs → h.next (firstD l head) = firstD xs head := by
+    intro x xs hx
+    subst hx
+    have : IsList h head ([] ++ x :: xs) := by simpa using hl
+    simpa using this.linked.next_mid
+  obtain ⟨h', e, il, va, vb⟩ := freeBadFrom_ok view head l [] h (h.next (firstD l head)) 0 fuel (by simpa using hl) hcond hf
+  refine ⟨h', ?_, by simpa using il, va, vb⟩
+  simp only [freeBad, Heap.getNext, hvh, if_true, hpos, hvp, bind, Option.bind]
+  simpa using e
+
+theorem freeAllLoop_ok (head : Addr) (fuel : Nat) (l : List Addr) :
+    ∀ (h : Heap) (k i : Nat), IsList h head l → l.length < fuel → l.length < k →
+      ∃ h', freeAllLoop head fuel k h i = some (h', i + l.length) ∧ IsList h' head [] ∧
+        (∀ a ∈ l, h'.valid a = false) ∧ (∀ a, a ∉ l → h'.valid a = h.valid a) := by
+  induction l with
+  | nil =>
+    intro h k i hl hf hk
+    cases k with
+    | zero => simp at hk
+    | succ k =>
+      obtain ⟨h', e, il, _, vo⟩ := itemFree_ok h head [] fuel 0 hl hf
+      simp only [List.length_nil, Nat.lt_irrefl, if_false] at e
+      refine ⟨h', by simp [freeAllLoop, e, bind, Option.bind], by simpa using il, by simp, fun a _ => vo a (by simp)⟩
+  | cons x xs ih =>
+    intro h k i hl hf hk
+    cases k with
+    | zero => simp at hk
+    | succ k =>
+      obtain ⟨h1, e1, il1, vx, vo⟩ := itemFree_ok h head (x :: xs) fuel 0 hl hf
+      simp only [List.length_cons, Nat.zero_lt_succ, if_true, List.eraseIdx_cons_zero] at e1 il1
+      obtain ⟨h2, e2, il2, va, vb⟩ := ih h1 k (i + 1) il1 (by simp at hf; omega) (by simp at hk; omega)
+      refine ⟨h2, ?_, il2, ?_, ?_⟩
+      · simp only [freeAllLoop, e1, bind, Option.bind]
+        simp only [Nat.succ_ne_zero, if_false, e2, List.length_cons]
+        congr 2; omega
+      · intro a ha
+        rcases List.mem_cons.1 ha with rfl | ha
+        · by_cases hax : a ∈ xs
+          · exact va a hax
+          · rw [vb a hax]; exact vx a (by simp)
+        · exact va a ha
+      · intro a ha
+        have h1' : a ∉ xs := fun hh => ha (List.mem_cons_of_mem _ hh)
+        have h2' : a ≠ x := fun e => ha (by rw [e]; simp)
+        rw [vb a h1']
+        exact vo a (by simp; exact fun e => h2' e.symm)
 
 end Jwt.Ll
